@@ -602,6 +602,13 @@ class Guards:
     def via_callee(self, e, spec):
         if getattr(spec, "local_only", False):
             return False
+        if isinstance(spec, AnyOf):
+            # alternatives that must be met in this very function are not looked for in callees
+            alts = [a for a in spec.specs if not getattr(a, "local_only", False)]
+            if not alts:
+                return False
+            if len(alts) != len(spec.specs):
+                spec = AnyOf(*alts, name=spec.name + " [followable alternatives]")
         return self._via_callee(e, spec)
 
     def _via_callee(self, e, spec):
